@@ -35,8 +35,9 @@ READINGS (the oracle is written under these; each is the reading under which the
   of the same kind, else the end of the part); `abstract` does not compare them, the oracle checks that the imported
   score has exactly those derived ends.
 * Byte fixpoint: `save(load(save(s))) == save(s)` is demanded when the notes of `s` carry voice numbers (and staff
-  numbers where the part has several staves): the identification "missing = 1" is many-to-one and the file can only be
-  reproduced from the representative the importer picks.  For every `s`, the re-written file `x = save(load(save(s)))`
+  numbers where the part has several staves) and its tuplets have their four values (or nothing the importer would infer):
+  the identifications "missing = 1", "missing tuplet content = what the note shows" are many-to-one and the file can only
+  be reproduced from the representative the importer picks.  For every `s`, the re-written file `x = save(load(save(s)))`
   must satisfy `save(load(x)) == x`.
 
 STREAMS (requests to the Lean driver drv_c03)
@@ -46,10 +47,30 @@ STREAMS (requests to the Lean driver drv_c03)
   snd   (ii)  events parsed from the bytes ->  `interpret` (MusicXML semantics) must give the score's own notes
   numg / num  the numbers written for slurs+tuplets (per note, counter shared by the file) / wedges+dashes
   pair / tie  the importer's pairing of slurs and tuplets by number, of ties by pitch (Model/RangeNumbers.lean)
+ element codecs (Model/XmlNote.lean, Model/XmlDir.lean; every <note>, <direction>, <sound>, <attributes> written):
+  wnote       the score's note (all fields make_note_el looks at) -> `writeNote` must give the element written, tree for tree
+  rnote       the element written -> `readNote` must give every field of the note load_musicxml made of it
+  cnote       the score's note -> `canon` (right-hand side of note_roundtrip) must give that loaded note too
+  evnote      the element written -> `toEv` must give the event the measure streams are fed with (parse_written)
+  wdir/wsound/wattr   the object(s) behind an element of do_directions / do_attributes -> `writeDir`/`writeSound`/
+              `writeAttributes` must give that element (the harness mirrors the loop structure, not the element building)
+  dirs        the <direction> elements of a part in order -> `readDirections` must give the objects the importer's own
+              _handle_direction makes of that sequence on a scratch part (class, text, line, staff, start, end: i.e. the
+              pairing of wedges, dashes and pedals through `ongoing`)
+  slots       the wedge (dashes) numbers in document order -> `slotAll` must give the (start, stop) pairs of those objects
+  rsound/rattr the element -> `readSound`/`readAttributes` must give what _handle_sound/_handle_attributes add to a scratch part
+  arts / dyns the enumeration `Artic` == exporter's ARTICULATIONS == what get_articulations reads; `dynTable` == DYN_DIRECTIONS
 ORACLE (Python only): abstract(load(save(s))) == abstract(s) field by field; save(load(save(s))) == save(s);
 an independent interpretation of the written file in quarter notes (divisions, backup/forward, chord, grace, ties
 by pitch and adjacency) == the sounding notes and measure extents of the score; in the document no two open
 slurs/tuplets/wedges/dashes share a number.
+FIELDS COMPARED after save -> load (abstract): part id, name, abbreviation, group nesting (symbol, name, number); divisions
+changes; measures (start, end, number, name); time signatures; key signatures (fifths, mode); clefs (staff, sign, line, octave
+change); per note/rest/unpitched/grace note: class, id, start, end, voice, staff, symbolic duration (type, dots, actual/normal
+notes), tie_next/tie_prev, articulations, fingerings (all of them), stem, note fermata, step/octave/alter, grace type and
+grace_next/grace_prev, notehead and its filled flag; slurs and tuplets (start/end note, times, the tuplet's four values);
+directions (class, text, raw text, staff, end, wedge, line: dynamics, wedges, dashes words, tempo/constant words, pedals); Words;
+tempi (quarter tempo, incl. non-whole and dotted units); repeats; endings (number); barline fermatas; harmony.
 """
 import io
 import os
@@ -63,35 +84,54 @@ PROPERTY = "C03"
 DRIVER = "drv_c03"
 PROPS = ["PartituraModel.Props.C03", "PartituraModel.Props.C03Codec"]
 TRUSTED = [
-    "lxml serialisation/parsing (etree.tostring pretty_print, XMLParser remove_blank_text), find/findall/xpath",
+    "lxml serialisation/parsing (etree.tostring pretty_print, XMLParser remove_blank_text) is the identity on element trees whose "
+    "texts are not blank; find/findall/xpath/iteration = `find`/`findall`/`findPath` of Model/XmlNote.lean",
     "Part.iter_all order inside a time point (class registry order) is taken from the implementation as input of the writer model",
-    "do_attributes/do_directions/do_barlines/do_harmony/do_prints produce the non-note elements handed to the writer model "
-    "(their content is compared through the round trip only); the split of a measure into divisions segments is recomputed "
-    "in the harness and checked through stream lin",
-    "estimate_symbolic_duration / parse_direction are used as given (C12 covers the duration tables)",
+    "which objects do_attributes/do_directions/do_barlines/do_harmony/do_prints turn into elements and at which time (the loop "
+    "structure) is mirrored in the harness; the elements themselves are modelled for <direction>, <sound>, <attributes> "
+    "(streams wdir/wsound/wattr) and opaque for <barline>, <harmony>, <print>; the split of a measure into divisions segments is "
+    "recomputed in the harness and checked through stream lin",
+    "estimate_symbolic_duration / parse_direction / to_quarter_tempo are used as given (C12 covers the duration tables); "
+    "parse_direction is opaque in the model (`DirItem.words` carries the text)",
+    "Python str(int)/int(str) = showIntC/parseIntC (plain decimal forms; underscores, non-ASCII digits not modelled); "
+    "float(repr(x)) == x and repr of a non-whole float is a plain decimal (no exponent in the tempo range); re.findall(r'\\d+') "
+    "= first maximal digit run",
     "Python dict (ongoing, counters) as a finite map; list.sort stable",
 ]
 PARTIAL = [
     "byte-level fixpoint save(load(save(s))) == save(s) is compared on every case, not proved",
-    "element codecs (note fields, attributes, directions, harmony, print, part-list nesting) are compared field by field through "
-    "the round trip, not modelled in Lean (no Model/XmlNote.lean)",
-    "pairing of wedges/dashes by number in _handle_direction is not modelled (their numbers are: numbers_distinct, stream num)",
+    "element codecs of <barline> (repeat, ending, fermata), <harmony>, <print>, <part-list> are compared field by field through "
+    "the round trip, not modelled in Lean; note_roundtrip / direction_roundtrip / tempo_roundtrip / attributes_roundtrip cover "
+    "<note>, <direction>, <sound tempo>, <attributes>",
+    "not modelled inside the modelled elements (the exporter writes none of them): <accidental> fallback for alter, <beam>, "
+    "ornaments, steal-time attributes of <grace>, <transpose>, <sound> children of <direction>, octave-shift, metronome; "
+    "signed/exponent forms of the tempo attribute",
+    "wedges_paired is about `slotAll` (ongoing[(kind, number)] as a finite map), tied to _handle_direction by stream slots; that "
+    "`readDirections` (the full element-by-element model, stream dirs) refines it is not proved; pedal pairing is compared only",
     "numbers_distinct speaks about the order in which the exporter meets the ranges; that document-open wedges are counter-open "
     "when a new wedge is numbered (fix C03-6) is checked on the bytes by the oracle, not proved",
+    "that the `<staves>` value is the number of staves is not claimed: do_attributes writes len() of a list that leaks out of a "
+    "loop (the clefs of the last clef time of the segment); the importer ignores <staves>; the model mirrors the code",
 ]
 RULE = ("seeded structured scores (1-3 parts, nested groups, 1-3 staves, 1-4 voices or no voice numbers, shared or separate "
         "registers, chords of unequal duration, notes running past the next onset, gaps, silent measures, late entries, "
         "mid-measure division/clef/signature changes, pickups and irregular measures, tie chains over barlines, grace runs, "
-        "nested/overlapping slurs and tuplets, dynamics, wedges, dashes, tempo words, tempi, pedals, repeats/endings, barline "
-        "and note fermatas, articulations, fingering, stems, unpitched notes, harmony) + hand-written corpus (witnesses of all "
-        "repaired defects) + every tests/data/musicxml fixture (load, then the same checks); distinct = distinct structural "
-        "signature (parts, voices, features used, notes); non-trivial = more than two notes or two voices or a feature")
+        "nested/overlapping slurs and tuplets (triplets, quintuplets, nested, with and without their four values), dynamics "
+        "(constant and impulsive marks), wedges, dashes, tempo words, tempi (whole, fractional, dotted units), pedals, "
+        "repeats/endings, barline and note fermatas, all sixteen articulations and unknown ones, 1-3 fingerings, stems, explicit "
+        "symbolic durations with dots and tuplet ratios, unpitched notes with noteheads, clefs with octave change and without "
+        "line, key modes, harmony) + hand-written corpus (witnesses of all repaired defects) + every tests/data/musicxml "
+        "fixture (load, then the same checks); distinct = distinct structural signature (parts, voices, features used, notes); "
+        "non-trivial = more than two notes or two voices or a feature")
 LEVEL_TEXT = ("Lean 4 theorems over all measure contents / event streams about executable models of the exporter's measure "
               "linearisation and voice clean-up, of an independent MusicXML measure reader and of the importer's reader, of "
-              "range numbering, pairing by number and tie pairing; the models are tied to partitura by differential runs on "
-              "generated scores (writer model vs. bytes written, reader models vs. load_musicxml and vs. the score, the "
-              "theorem's hypothesis evaluated on every measure), and the round trip and byte fixpoint are checked directly "
-              "on every case and every MusicXML fixture of the repository.")
+              "range numbering, pairing by number (slurs, tuplets, wedges, dashes) and tie pairing, and over all field values "
+              "about the element codecs of <note>, <direction>, <sound tempo> and <attributes> (what the importer extracts from "
+              "the element the exporter writes is exactly what the object denotes); the models are tied to partitura by "
+              "differential runs on generated scores (writer models vs. the elements and bytes written, reader models vs. "
+              "load_musicxml, vs. the importer's own handlers on scratch parts and vs. the score, the theorems' hypotheses "
+              "evaluated on every measure and element, the constant tables compared with the live ones), and the round trip "
+              "and byte fixpoint are checked directly on every case and every MusicXML fixture of the repository.")
 
 REPO = os.environ.get("VERIF_REPO", "/repo")
 FIXDIR = os.path.join(REPO, "tests", "data", "musicxml")
@@ -395,7 +435,7 @@ def gen_extras(rng, d, nstaves):
         if t not in used_t:
             used_t.add(t)
             bpm, unit = rng.choice([(120, "q"), (60, "q"), (72, None), (50, "h"), (100, "e"), (80, "q."), (66, "h."), (132, "q"),
-                                    (66.5, "q"), (100, "e."), (63, "s"), (90.25, "h"), (55, "q..")])
+                                    (66.5, "q"), (100, "e."), (63, "16th"), (90.25, "h"), (55, "q.."), (77, "eighth")])
             ex.append(["Tempo", t, None, {"bpm": bpm, "unit": unit}])
     if len(meas) >= 2 and r() < 0.35:
         i = rng.randrange(len(meas))
@@ -1494,7 +1534,7 @@ def _check_roundtrip(ev, s, what, streams, from_file):
         i = next((i for i, (a, b) in enumerate(zip(l1, l2)) if a != b), min(len(l1), len(l2)))
         return "line %d: %r vs %r" % (i + 1, l1[i:i + 1], l2[i:i + 1])
 
-    if x2 != x1 and explicit_voices_and_staves(s):
+    if x2 != x1 and explicit_voices_and_staves(s) and explicit_tuplets(s):
         fail("fixpoint: save(load(save(s))) differs from save(s) at " + first_diff(x1, x2))
     if x2 != x1:
         # from the file as re-written the fixpoint must hold whatever the score looked like
@@ -1829,6 +1869,18 @@ def explicit_voices_and_staves(s):
         ns = p.number_of_staves
         for n in p.iter_all(S.GenericNote, include_subclasses=True):
             if not n.voice or (ns > 1 and not n.staff):
+                return False
+    return True
+
+
+def explicit_tuplets(s):
+    """... and tuplets that say what they are (or whose first note shows nothing the importer would fill in)"""
+    import partitura.score as S
+
+    for p in s.parts:
+        for o in p.iter_all(S.Tuplet):
+            vals = (o.actual_notes, o.normal_notes, o.actual_type, o.normal_type)
+            if None in vals and _tuplet_shown(o) != vals:
                 return False
     return True
 
